@@ -74,8 +74,8 @@ func (t *ackTap) onWrite(e *connEnd, b []byte) {
 			for _, in := range op.Cmd.Inner {
 				if !bytes.Contains(fb, encodeCmd(in)) {
 					w.violate(t.class+"/ack-before-file",
-						"reply %s to the script [%s] is being written to connection %s while its write [%s] is not in appendonly.aof (file has %d bytes; still in the in-memory buffer: %v; dirty flag: %v)",
-						v.String(), clipStr(op.Cmd.String(), 100), e.c.name, clipStr(strings.Join(in, " "), 100), len(fb), bytes.Contains(t.inst.srv.aofbuf, encodeCmd(in)), t.inst.srv.aofdirty.Load())
+						"reply %s to the script [%s] is being written to connection %s while its write [%s] is not in appendonly.aof (file has %d bytes; still in the in-memory buffer: %v)",
+						v.String(), clipStr(op.Cmd.String(), 100), e.c.name, clipStr(strings.Join(in, " "), 100), len(fb), bytes.Contains(t.inst.srv.aofbuf, encodeCmd(in)))
 					break
 				}
 			}
@@ -89,8 +89,8 @@ func (t *ackTap) onWrite(e *connEnd, b []byte) {
 		if !bytes.Contains(fb, encodeCmd(op.Cmd.Args)) {
 			inbuf := bytes.Contains(t.inst.srv.aofbuf, encodeCmd(op.Cmd.Args))
 			w.violate(t.class+"/ack-before-file",
-				"reply %s to [%s] is being written to connection %s while the command is not in %s (file has %d bytes; command still in the in-memory buffer: %v; dirty flag: %v)",
-				v.String(), clipStr(op.Cmd.String(), 120), e.c.name, "appendonly.aof", len(fb), inbuf, t.inst.srv.aofdirty.Load())
+				"reply %s to [%s] is being written to connection %s while the command is not in %s (file has %d bytes; command still in the in-memory buffer: %v)",
+				v.String(), clipStr(op.Cmd.String(), 120), e.c.name, "appendonly.aof", len(fb), inbuf)
 		}
 	}
 }
